@@ -58,6 +58,10 @@ CHECKS = {
          "Exploration: 1k (quick) / 30k (thorough) generated schemas (half with one injected fault from the 36+3 entry catalogue) x 12 / 40 arrangements (as generated, extensions first, interfaces after implementers, reversed, roots last, random; 1-5 sources in random order); verdict and canonical schema (fields, values, members, interfaces, directive applications as sets; relations; roots) must equal the base arrangement, and a load error must name a file holding a definition involved in a violation the reference checker sees.",
          "Trusts the canonical dump and the reference checker's involved-definition sets; schemas violating rules outside C07's enumeration are judged for order independence only.",
          "DESIGN.md §4 C17"),
+ "C18": ("multiset-algebra monitor over error lists of rule subsets: default vs explicit full list (ordered), every exported rule alone, random subsets in random order vs the union of their members, rule tags, suggestion-free variants vs their standard rules",
+         "Exploration: 3k (quick) / 60k (thorough) fault-heavy (schema, document) pairs x (31 singletons + 12 / 40 random subsets of 2-7 rules in random order + the full set + the default call), every validation on a fresh parse; 95k single-rule and 37k subset validations per quick run.",
+         "Clause (1) assumes the registration order is the alphabetical order of the rule files. Needs no reference model: the library is compared with itself.",
+         "DESIGN.md §4 C18"),
  "C19": ("runtime round-trip monitor: model(parse(x)) vs model(json.Unmarshal(json.Marshal(parse(x)))) over generated documents",
          "Exploration: every generated document is parsed by the real parser, encoded and decoded by the real (un)marshalers and compared with an independent AST→model adapter; 20k (quick) / 500k (thorough) documents with all three selection kinds at every depth and order. Held on what was observed, not a proof.",
          "Trusts encoding/json and the harness's model adapter; positions, comments and validation annotations are outside the property and not compared.",
